@@ -196,3 +196,133 @@ Fixpoint no_named_flattened (t : item) : bool :=
              end && go l'
          end) ops
   end.
+
+(* ---------------------------------------------------------------- C06: the expected leaves *)
+(* The leaf items a tree should give, in document order, computed directly on the tree: one per
+   word / phrase / range, addressed to the enclosing field names joined by dots (the default field when
+   there is none), with the term's text, the kind chosen from the analysed / not analysed table, the
+   modifiers of the enclosing ~ and ^ when they apply to a single clause, the name of the nearest named
+   enclosing element, and zero_terms_query 'all' exactly on the clauses that are direct items of a
+   conjunction.  No flattening, no exceptions, no E-tree structure.  (Records are built with the E-item
+   constructors mk_word / mk_phrase / mk_range of EsBuild.v; their JSON is EsBuild.leaf_json.) *)
+Definition word_leaf (cfg : es_config) (t : item) (v : str) (cx : ectx) : leaf :=
+  mk_word v (if ctx_is_analyzed cfg cx
+             then (if c_match_word_as_phrase cfg then k_match_phrase else k_match)
+             else k_term)
+          (ctx_fields cfg cx) (get_name t cx).
+
+Definition phrase_leaf (cfg : es_config) (t : item) (v : str) (cx : ectx) : leaf :=
+  if ctx_is_analyzed cfg cx
+  then mk_phrase v (ctx_fields cfg cx) (get_name t cx)
+  else mk_word (strip_ends v) k_term (ctx_fields cfg cx) (get_name t cx).
+
+(* the context below a search field *)
+Definition field_ctx (cfg : es_config) (t : item) (n : str) (cx : ectx) : ectx :=
+  propagate_name t
+    (mkECtx (Some (field_prefix cx ++ split_on c_dot n))
+            (Some (negb (mem_str (dotted (field_prefix cx ++ split_on c_dot n)) (c_not_analyzed cfg))))
+            (x_name cx)).
+
+(* does the element translate to a single leaf clause (so that ~, ^ and the zero_terms_query of an
+   enclosing conjunction reach it) ?  A field that gets wrapped in a nested clause does not. *)
+Fixpoint leafy (cfg : es_config) (env : es_env) (t : item) (cx : ectx) : bool :=
+  match t with
+  | Term KRegex _ _ => false
+  | Term _ _ _ => true
+  | Range _ _ _ _ _ => true
+  | SearchField _ n e =>
+      leafy cfg env e (field_ctx cfg t n cx) &&
+      match split_nested env n cx with None => true | Some _ => false end
+  | Grp _ _ e | Boost _ e _ _ => leafy cfg env e (propagate_name t cx)
+  | Fuzzy _ x _ _ | Proximity _ x _ _ => leafy cfg env x (propagate_name t cx)
+  | _ => false
+  end.
+
+(* the kind of bool clause an operation / unary operator becomes *)
+Definition ekind (cfg : es_config) (t : item) : eopk :=
+  match t with
+  | Op KAnd _ _ => EKMust
+  | Op KOr _ _ => EKShould
+  | Op KUnknown _ _ => match c_default_operator cfg with DShould => EKShould | _ => EKMust end
+  | Op KBool _ _ => EKBool
+  | Unary KPlus _ _ => EKMust
+  | _ => EKMustNot
+  end.
+
+Definition tagz (z : option str) (lf : bool) (ls : list leaf) : list leaf :=
+  match z with Some s => if lf then map (leaf_set_ztq s) ls else ls | None => ls end.
+
+Fixpoint xl (cfg : es_config) (env : es_env) (t : item) (cx : ectx) : list leaf :=
+  let cx' := propagate_name t cx in
+  let sub (c : item) := tagz (ztq_of_op (ekind cfg t)) (leafy cfg env c cx') (xl cfg env c cx') in
+  match t with
+  | Term KWord _ v => [word_leaf cfg t v cx]
+  | Term KPhrase _ v => [phrase_leaf cfg t v cx]
+  | Term KRegex _ _ => []
+  | Range _ lo hi il ih =>
+      match range_bound_value lo, range_bound_value hi with
+      | Some vlo, Some vhi =>
+          [mk_range (if il then k_gte else k_gt) vlo (if ih then k_lte else k_lt) vhi
+                    (ctx_fields cfg cx) (get_name t cx)]
+      | _, _ => []
+      end
+  | SearchField _ n e => xl cfg env e (field_ctx cfg t n cx)
+  | Grp _ _ e => xl cfg env e cx'
+  | Boost _ e f _ =>
+      if leafy cfg env e cx' then map (leaf_set_boost f) (xl cfg env e cx') else xl cfg env e cx'
+  | Fuzzy _ x d _ =>
+      if leafy cfg env x cx' then map (leaf_set_fuzziness d) (xl cfg env x cx') else xl cfg env x cx'
+  | Proximity _ x z _ =>
+      if leafy cfg env x cx'
+      then map (if ctx_is_analyzed cfg cx then leaf_set_slop (dec_of_Z z)
+                else leaf_set_fuzziness (dec_of_Z z)) (xl cfg env x cx')
+      else xl cfg env x cx'
+  | Op _ _ ops => (fix go (l : list item) : list leaf :=
+                     match l with [] => [] | c :: l' => sub c ++ go l' end) ops
+  | Unary _ _ a => sub a
+  | ORange _ _ a _ => xl cfg env a cx'
+  | NoneItem _ => []
+  end.
+
+Definition expected_leaves (cfg : es_config) (t : item) : list leaf := xl cfg (mk_env cfg) t ctx0.
+
+(* the leaf clauses of a bool / nested query, in document order *)
+Fixpoint leaves (j : json) : list json :=
+  match j with
+  | JObj [(k, JObj body)] =>
+      if str_eqb k k_bool then
+        (fix go (o : list (str * json)) : list json :=
+           match o with
+           | [] => []
+           | (_, JList l) :: o' =>
+               (fix gl (l : list json) : list json :=
+                  match l with [] => [] | x :: l' => leaves x ++ gl l' end) l ++ go o'
+           | _ :: o' => go o'
+           end) body
+      else if str_eqb k k_nested then
+        (fix go (o : list (str * json)) : list json :=
+           match o with
+           | [] => []
+           | (k', v) :: o' => if str_eqb k' k_query then leaves v else go o'
+           end) body
+      else [j]
+  | _ => [j]
+  end.
+
+(* the clause a leaf item is rendered to (EsBuild.leaf_json is the documented table: kind from
+   leaf_method, field, value under query / value, generated keys over the field options) *)
+Definition clause (cfg : es_config) (l : leaf) : json :=
+  match leaf_json cfg l with ROk j => j | RExc _ => JNull end.
+
+Definition expected_clauses (cfg : es_config) (t : item) : list json :=
+  map (clause cfg) (expected_leaves cfg t).
+
+(* no clause kind is called "bool" or "nested" (a match_type / type option could say so; then the
+   clause could not be told from a compound clause) *)
+Definition kind_not_reserved (cfg : es_config) (l : leaf) : bool :=
+  match leaf_method cfg l with
+  | JStr m => negb (str_eqb m k_bool) && negb (str_eqb m k_nested)
+  | _ => true
+  end.
+Definition kinds_not_reserved (cfg : es_config) (t : item) : bool :=
+  forallb (kind_not_reserved cfg) (expected_leaves cfg t).
